@@ -19,6 +19,15 @@ impl OwnedFd { pub uninterp spec fn id(&self) -> int; }
 #[derive(Clone, Copy)]
 pub struct BorrowedFd<'a> { pub id: Ghost<int>, pub _p: core::marker::PhantomData<&'a ()> }
 
+impl<'a> BorrowedFd<'a> {
+    /// fcntl(F_DUPFD_CLOEXEC): the new descriptor refers to the same open file description
+    #[verifier::external_body]
+    pub fn try_clone_to_owned(&self) -> (r: Result<OwnedFd, IOError>)
+        ensures r matches Ok(fd) ==> same_description(fd.id(), self.id@) && lineage(fd.id()) == lineage(self.id@)
+            && is_procfs(fd.id()) == is_procfs(self.id@) && mnt_checked(fd.id()) == mnt_checked(self.id@)
+    { unimplemented!() }
+}
+pub uninterp spec fn same_description(a: int, b: int) -> bool;
 pub trait AsFd {
     spec fn fd_id(&self) -> int;
     fn as_fd(&self) -> (r: BorrowedFd<'_>) ensures r.id@ == self.fd_id();
@@ -74,3 +83,7 @@ pub uninterp spec fn requested_rflags() -> u32;
 pub uninterp spec fn link_body_of(fd: int, body: Seq<u8>) -> bool; // readlinkat(fd, "") returned body
 pub uninterp spec fn reopened_from(fd: int, orig: int) -> bool; // fd = open(/proc/thread-self/fd/<orig>) (A6)
 pub uninterp spec fn follow_site_ok(dir: int, name: Seq<u8>) -> bool; // the one legal follow site: procfs dir, mount-checked, link dentry checked
+pub uninterp spec fn follow_checked(dir: int, link: int) -> bool;    // may_follow_link(dir, link) allowed following this symlink
+/// the link was opened as an entry of a directory against which the protected_symlinks rule was evaluated
+pub open spec fn follow_checked_in_parent(link: int) -> bool { exists|d: int, n: Seq<u8>| (#[trigger] opened_from(link, d, n)) && follow_checked(d, link) }
+pub uninterp spec fn no_symlinks_requested() -> bool;     // rigid: the operation was asked not to follow any link
